@@ -13,6 +13,7 @@ import Fir.Proofs.IdealLemmas
 import Fir.Proofs.RowCursorLemmas
 import Mathlib.Algebra.Order.Floor.Ring
 import Mathlib.Order.Monotone.Basic
+import Fir.Proofs.IeeeLemmas
 
 namespace Fir.C11
 open Fir
@@ -99,5 +100,20 @@ theorem ideal_odd_downscale (dw j x : Nat) (hd : 0 < dw) (hx : x < dw) :
 
 example : Fir.Proofs.nearestIdeal 0 4 8 5 = 2 := by
   unfold Fir.Proofs.nearestIdeal; norm_num [Int.floor_eq_iff]
+
+/-! ### the premises about rounding discharged for IEEE-754 round-to-nearest-even (`Fir.Ieee.flP`) -/
+
+section IeeeInstances
+open Fir.Ieee Fir.Flt
+/-- the requested rows are non-decreasing for IEEE binary64 (`y += y_scale`, `y_scale ≥ 0`, start representable) -/
+theorem requested_rows_sorted_ieee (y : ℕ → ℚ) (step : ℚ) (hs : 0 ≤ step)
+    (hy : ∀ k, y (k + 1) = flP 53 (y k + step)) (h0 : flP 53 (y 0) = y 0) (maxY : ℕ) (k : ℕ) :
+    min ⌊y k⌋.toNat maxY ≤ min ⌊y (k + 1)⌋.toNat maxY := by
+  apply requested_rows_sorted (flP 53) (flP_monotone 53 (by norm_num)) y step hs hy _ maxY k
+  intro j
+  cases j with
+  | zero => exact h0
+  | succ j => rw [hy j]; exact flP_idem 53 (by norm_num) _
+end IeeeInstances
 
 end Fir.C11
